@@ -19,8 +19,19 @@ def sh(cmd, cwd=None, env=ENV, timeout=3600):
     return p.returncode, p.stdout
 
 
+def config_flags(mutdir):
+    """Cargo flags of the configuration in which a change shows (third round: feature / profile specific)."""
+    try:
+        kind = str(json.load(open(os.path.join(mutdir, "meta.json"))).get("kind", "")).strip()[:1].upper()
+    except Exception:
+        kind = ""
+    return {"A": "--no-default-features", "B": "--release", "C": "--no-default-features --features unicode-linebreak,smawk"}.get(kind, "")
+
+
 def verify(wt, mutdir, name):
     log = {}
+    flags = config_flags(mutdir)
+    log["configuration"] = flags or "default"
     n = os.path.basename(mutdir.rstrip("/"))
     rc, out = sh("git status --porcelain", cwd=wt)
     dirty = [l for l in out.splitlines() if not l.endswith("deliver/")]
@@ -33,17 +44,24 @@ def verify(wt, mutdir, name):
         return False
     try:
         rc, out = sh("cargo test --offline 2>&1", cwd=wt)
+        if rc == 0 and flags:
+            rc, out2 = sh("cargo test --offline %s 2>&1" % flags, cwd=wt)
+            log["suite_passes_with_change_in_configuration"] = rc == 0
+            out += out2
         log["suite_passes_with_change"] = rc == 0
         log["suite_summary"] = [l for l in out.splitlines() if l.startswith("test result")]
         log["warnings_with_change"] = out.count("warning:")
         n = name.replace("-", "_")
         demo = "tests/demo_%s.rs" % n
         shutil.copy(os.path.join(mutdir, "demo.rs"), os.path.join(wt, demo))
-        rc, out = sh("cargo test --offline --test demo_%s 2>&1" % n, cwd=wt)
+        rc, out = sh("cargo test --offline %s --test demo_%s 2>&1" % (flags, n), cwd=wt)
         log["demo_fails_with_change"] = rc != 0 and "test result: FAILED" in out
+        if flags:
+            rc0, out0 = sh("cargo test --offline --test demo_%s 2>&1" % n, cwd=wt)
+            log["demo_passes_with_change_in_default_configuration"] = rc0 == 0
         log["demo_failure"] = next((l for l in out.splitlines() if "panicked at" in l or "assertion" in l), "")[:300]
         sh("git checkout -- src", cwd=wt)
-        rc, out = sh("cargo test --offline --test demo_%s 2>&1" % n, cwd=wt)
+        rc, out = sh("cargo test --offline %s --test demo_%s 2>&1" % (flags, n), cwd=wt)
         log["demo_passes_without_change"] = rc == 0
     finally:
         sh("git checkout -- . ; rm -f tests/demo_*.rs", cwd=wt)
